@@ -33,13 +33,13 @@ func generate(run *common.Run, n int) []*Case {
 }
 
 func (g *genCfg) genAny(id string) *Case {
-	switch x := g.rng.Intn(26); {
+	switch x := g.rng.Intn(28); {
 	case x < 8:
 		return g.genCall("s2h", id)
 	case x < 15:
 		c := g.genCall("h2s", id)
-		if c.Via != "eval-qual" && g.rng.Intn(6) == 0 {
-			c.BareEval = true // Eval("F") and Symbols() after a statement evaluated without package clause
+		if g.rng.Intn(6) == 0 {
+			c.BareEval = true // Eval("main.F"), Eval("F") and Symbols() after a statement evaluated without package clause
 		}
 		return c
 	case x < 17:
@@ -58,6 +58,8 @@ func (g *genCfg) genAny(id string) *Case {
 		return g.genSpreadViaFuncValue(id)
 	case x < 24:
 		return g.genCondLoop(id)
+	case x < 26:
+		return g.genRepaired(id)
 	}
 	return g.genVarCase(id)
 }
@@ -148,7 +150,7 @@ func (g *genCfg) genVariadicCtx(id string) *Case {
 // featuresFor: the generator features a class needs.
 func featuresFor(cls string) []string {
 	switch cls {
-	case "script-iface", "methodful-in-empty", "script-dyn-indirect", "eval-qualified-var", "var-assign-direct":
+	case "script-iface", "methodful-in-empty", "script-dyn-indirect":
 		return []string{cls}
 	}
 	return nil
@@ -261,11 +263,6 @@ func (g *genCfg) genCondLoop(id string) *Case {
 		}
 	}
 	c.Args[0], c.Forms[0] = &Val{T: typeByID("bool")}, "loopvar"
-	if c.Recv == "mvalue" || c.Recv == "sptrmv" {
-		for k := 1; k < len(c.Forms); k++ {
-			c.Forms[k] = "var" // constants through a method value of a variadic method: F07-3
-		}
-	}
 	// alternating results, both orders, at least one true followed by a false
 	n := 2 + r.Intn(5)
 	b := r.Intn(2) == 0
@@ -275,6 +272,48 @@ func (g *genCfg) genCondLoop(id string) *Case {
 			b = !b
 		}
 	}
+	return c
+}
+
+// genRepaired: the shapes of the findings repaired in round 5, kept in the in-domain stream — constants through a method value of a
+// variadic host method (F07-3, b1e4f7b), Eval("main.F") after a statement evaluated without package clause (F07-18, 113505f), a
+// host variable of pointer / interface type that is nil when Use is called (F07-5, ad91691), a script global of interface type seen
+// through Globals / Symbols (F07-12, 7c18bb6).
+func (g *genCfg) genRepaired(id string) *Case {
+	r := g.rng
+	switch r.Intn(4) {
+	case 0:
+		c := g.genMethodCase(id)
+		c.Recv = []string{"mvalue", "mvalue", "sptrmv"}[r.Intn(3)]
+		if c.Recv == "sptrmv" && c.Ctx == "go" {
+			c.Ctx = "stmt"
+		}
+		g.setRebind(c)
+		for k, a := range c.Args {
+			pt := paramTypeOf(c, k)
+			if pt.Kind == KBasic && !(c.Spread && k == len(c.Args)-1) && a.T.Kind == KBasic {
+				c.Forms[k] = "const"
+			}
+		}
+		return c
+	case 1:
+		c := g.genCall("h2s", id)
+		c.BareEval, c.Via = true, "eval-qual"
+		return c
+	case 2:
+		c := &Case{ID: id, Dir: "var", Access: "use"}
+		c.VT = g.one("*int", "*hp.Pt", "*string", "*[]int", "*hp.Tree", "*float64", "error", "fmt.Stringer", "interface{}")
+		vg := *g
+		c.V0 = &Val{T: c.VT, Nil: true}
+		c.V1, c.V2 = vg.gen(c.VT, 0), vg.gen(c.VT, 0)
+		c.Direct = r.Intn(4) == 0
+		return c
+	}
+	c := g.genVarCase(id)
+	c.Access = []string{"globals", "symbols"}[r.Intn(2)]
+	c.VT = g.one("interface{}", "error", "fmt.Stringer")
+	vg := *g
+	c.V0, c.V1, c.V2 = vg.gen(c.VT, 0), vg.gen(c.VT, 0), vg.gen(c.VT, 0)
 	return c
 }
 
@@ -301,40 +340,6 @@ func (g *genCfg) call(dir, id string, sig *TypeD) *Case {
 func (g *genCfg) genFor(cls, id string) *Case {
 	r := g.rng
 	switch cls {
-	case "method-value-variadic":
-		c := g.genMethodCase(id)
-		c.Recv = []string{"mvalue", "mvalue", "sptrmv"}[r.Intn(3)]
-		if c.Recv == "sptrmv" && c.Ctx == "go" {
-			c.Ctx = "stmt"
-		}
-		g.setRebind(c)
-		for k, a := range c.Args {
-			pt := paramTypeOf(c, k)
-			if pt.Kind == KBasic && !(c.Spread && k == len(c.Args)-1) && a.T.Kind == KBasic {
-				c.Forms[k] = "const"
-			}
-		}
-		return c
-	case "qualified-eval-after-bare-statement":
-		c := g.genCall("h2s", id)
-		c.BareEval, c.Via = true, "eval-qual"
-		return c
-	case "hostvar-nil-pointer":
-		c := &Case{ID: id, Dir: "var", Access: "use"}
-		c.VT = g.one("*int", "*hp.Pt", "*string", "*[]int", "*hp.Tree", "*float64", "error", "fmt.Stringer", "interface{}")
-		vg := *g
-		c.V0 = &Val{T: c.VT, Nil: true}
-		c.V1, c.V2 = vg.gen(c.VT, 0), vg.gen(c.VT, 0)
-		return c
-	case "eval-qualified-var", "var-assign-direct":
-		return g.genVarCase(id)
-	case "iface-typed-global":
-		c := g.genVarCase(id)
-		c.Access = []string{"globals", "symbols"}[r.Intn(2)]
-		c.VT = g.one("interface{}", "error", "fmt.Stringer")
-		vg := *g
-		c.V0, c.V1, c.V2 = vg.gen(c.VT, 0), vg.gen(c.VT, 0), vg.gen(c.VT, 0)
-		return c
 	case "script-iface":
 		c := g.genCall("h2s", id)
 		ms := typeByID("MS")
